@@ -222,7 +222,10 @@ def embeds(p, s, binds, relax=()):
     if is_expr_ph(p):
         key, tgt = p.id, ast.dump(s)
         if 'expr_repeat' in relax:
-            yield {**binds, key: binds.get(key, tgt)}
+            # the deliberate CAIT rule: a repeated __expr__ need not bind equal subtrees -- but what it is bound to
+            # must still be the subtree at one of its positions (collected here, judged in _bind_ok)
+            allk = key + '\0positions'
+            yield {**binds, key: binds.get(key, tgt), allk: binds.get(allk, ()) + (tgt,)}
             return
         if binds.get(key, tgt) == tgt:
             yield {**binds, key: tgt}
@@ -309,9 +312,12 @@ def _bind_ok(b, want, match, relax=()):
     if not all(b.get(k) == v for k, v in want.items() if k in b):
         return False
     for k, v in match.exp_table.items():
-        if 'expr_repeat' in relax:
-            continue
         d = ast.dump(v.astNode)
+        if 'expr_repeat' in relax:
+            pos = b.get(k + '\0positions')
+            if pos is not None and d not in pos and not (isinstance(v.astNode, ast.Expr) and ast.dump(v.astNode.value) in pos):
+                return False
+            continue
         if k in b and b[k] != d and not (isinstance(v.astNode, ast.Expr) and b[k] == ast.dump(v.astNode.value)):
             return False
     return True
